@@ -3,10 +3,15 @@
 #define VF_MONITORS_HPP
 #include "common.hpp"
 #include <typeinfo>
+#include <atomic>
 
 namespace vf{
 
 typedef std::function<void(CaseCtx&, Rng&)> Monitor;
+// handler of the library's guarded hook points (TSG_VERIF_HOOK(tag, a, b)); tsg_verif_hook() is defined once in hooks.cpp and dispatches here.
+// A monitor installs its handler with g_hook_handler.store(fn) for the duration of a case and resets it to nullptr afterwards.
+typedef void (*HookFn)(const char *tag, long a, long b);
+extern std::atomic<HookFn> g_hook_handler;
 std::map<std::string, Monitor> const& registry();
 
 std::string arg(std::string const &k, std::string const &def);
@@ -60,6 +65,7 @@ struct HState{
     int vmode = 0;
     bool values_are_model = true;  // false after merge (zeros) / set_coeffs (values = surrogate at nodes)
     std::vector<std::string> trace;
+    std::function<void(std::vector<double> const&)> on_candidates; // called with every candidate list requested during construction
 };
 // value model used by histories: tagged by coordinates, output and generation
 std::vector<double> model_values(std::vector<double> const &pts, int dims, int outs, int gen, int vmode);
